@@ -293,24 +293,33 @@ func (svc *service) stop() {
 }
 
 func (svc *service) publish(msg *message.PublishMessage, onComplete OnCompleteFunc) error {
+	// The message is registered for its acknowledgement before it is sent:
+	// the acknowledgement may be processed before writeMessage has returned.
+	switch msg.QoS() {
+	case message.QosAtLeastOnce:
+		if err := assignPacketID(msg); err != nil {
+			return err
+		}
+		if err := svc.sess.Pub1ack.Wait(msg, onComplete); err != nil {
+			return err
+		}
+
+	case message.QosExactlyOnce:
+		if err := assignPacketID(msg); err != nil {
+			return err
+		}
+		if err := svc.sess.Pub2out.Wait(msg, onComplete); err != nil {
+			return err
+		}
+	}
+
 	_, err := svc.writeMessage(msg)
 	if err != nil {
 		return fmt.Errorf("(%s) Error sending %s message: %v", svc.cid(), msg.Name(), err)
 	}
 
-	switch msg.QoS() {
-	case message.QosAtMostOnce:
-		if onComplete != nil {
-			return onComplete(msg, nil, nil)
-		}
-
-		return nil
-
-	case message.QosAtLeastOnce:
-		return svc.sess.Pub1ack.Wait(msg, onComplete)
-
-	case message.QosExactlyOnce:
-		return svc.sess.Pub2out.Wait(msg, onComplete)
+	if msg.QoS() == message.QosAtMostOnce && onComplete != nil {
+		return onComplete(msg, nil, nil)
 	}
 
 	return nil
@@ -319,11 +328,6 @@ func (svc *service) publish(msg *message.PublishMessage, onComplete OnCompleteFu
 func (svc *service) subscribe(msg *message.SubscribeMessage, onComplete OnCompleteFunc, onPublish OnPublishFunc) error {
 	if onPublish == nil {
 		return fmt.Errorf("onPublish function is nil. No need to subscribe")
-	}
-
-	_, err := svc.writeMessage(msg)
-	if err != nil {
-		return fmt.Errorf("(%s) Error sending %s message: %v", svc.cid(), msg.Name(), err)
 	}
 
 	var onc OnCompleteFunc = func(msg, ack message.Message, err error) error {
@@ -393,15 +397,24 @@ func (svc *service) subscribe(msg *message.SubscribeMessage, onComplete OnComple
 		return err2
 	}
 
-	return svc.sess.Suback.Wait(msg, onc)
-}
+	// Register before sending: the SUBACK may be processed before
+	// writeMessage has returned.
+	if err := assignPacketID(msg); err != nil {
+		return err
+	}
+	if err := svc.sess.Suback.Wait(msg, onc); err != nil {
+		return err
+	}
 
-func (svc *service) unsubscribe(msg *message.UnsubscribeMessage, onComplete OnCompleteFunc) error {
 	_, err := svc.writeMessage(msg)
 	if err != nil {
 		return fmt.Errorf("(%s) Error sending %s message: %v", svc.cid(), msg.Name(), err)
 	}
 
+	return nil
+}
+
+func (svc *service) unsubscribe(msg *message.UnsubscribeMessage, onComplete OnCompleteFunc) error {
 	var onc OnCompleteFunc = func(msg, ack message.Message, err error) error {
 		onComplete := onComplete
 
@@ -455,18 +468,48 @@ func (svc *service) unsubscribe(msg *message.UnsubscribeMessage, onComplete OnCo
 		return err2
 	}
 
-	return svc.sess.Unsuback.Wait(msg, onc)
-}
-
-func (svc *service) ping(onComplete OnCompleteFunc) error {
-	msg := message.NewPingreqMessage()
+	// Register before sending: the UNSUBACK may be processed before
+	// writeMessage has returned.
+	if err := assignPacketID(msg); err != nil {
+		return err
+	}
+	if err := svc.sess.Unsuback.Wait(msg, onc); err != nil {
+		return err
+	}
 
 	_, err := svc.writeMessage(msg)
 	if err != nil {
 		return fmt.Errorf("(%s) Error sending %s message: %v", svc.cid(), msg.Name(), err)
 	}
 
-	return svc.sess.Pingack.Wait(msg, onComplete)
+	return nil
+}
+
+func (svc *service) ping(onComplete OnCompleteFunc) error {
+	msg := message.NewPingreqMessage()
+
+	// Register before sending: the PINGRESP may be processed before
+	// writeMessage has returned.
+	if err := svc.sess.Pingack.Wait(msg, onComplete); err != nil {
+		return err
+	}
+
+	_, err := svc.writeMessage(msg)
+	if err != nil {
+		return fmt.Errorf("(%s) Error sending %s message: %v", svc.cid(), msg.Name(), err)
+	}
+
+	return nil
+}
+
+// assignPacketID makes sure that msg carries its packet identifier. A message
+// without one gets it when it is encoded for the first time.
+func assignPacketID(msg message.Message) error {
+	if msg.PacketID() != 0 {
+		return nil
+	}
+	_, err := msg.Encode(make([]byte, msg.Len()))
+	return err
 }
 
 // nextPacketID returns the next packet identifier for messages this service
